@@ -38,18 +38,42 @@ func runC12(c *kit.Ctx) {
 	c.StartRule("R1", "nothing is sent before validation passed", 5)
 	allOK := resultAlloc(sb, 1) // the named bool result
 	var loopHdr *ssa.BasicBlock
+	var hdrs []*ssa.BasicBlock
 	batchParam := paramOfType(sb, "[]"+kit.Module+"/hrpc.Call", 0)
 	kit.Instrs(sb, func(in ssa.Instruction) {
-		if ph, ok := in.(*ssa.Phi); ok && ph.Comment == "rangeindex" && loopHdr == nil {
+		if ph, ok := in.(*ssa.Phi); ok && ph.Comment == "rangeindex" {
 			for _, r := range kit.Referrers(ph) {
 				if bo, ok := r.(*ssa.BinOp); ok && bo.Op == token.ADD {
 					if s, ok := rangeOfIndex(bo); ok && s == ssa.Value(batchParam) {
-						loopHdr = ph.Block()
+						if loopHdr == nil {
+							loopHdr = ph.Block()
+						}
+						hdrs = append(hdrs, ph.Block())
 					}
 				}
 			}
 		}
 	})
+	// validation may be done in several passes over the batch: every loop over the batch parameter that comes
+	// before anything is located or queued
+	if loopHdr != nil {
+		var keep []*ssa.BasicBlock
+		for _, h := range hdrs {
+			before := true
+			for _, call := range kit.Calls(sb, kit.M("", "*client", "findClients"), hrpcRC+"QueueBatch", hrpcRC+"QueueRPC") {
+				if !h.Dominates(call.Block()) || kit.Reaches(call.(ssa.Instruction), h.Instrs[0]) {
+					before = false
+				}
+			}
+			if before {
+				keep = append(keep, h)
+			}
+		}
+		hdrs = keep
+		if len(hdrs) == 0 {
+			loopHdr = nil
+		}
+	}
 	if allOK == nil || loopHdr == nil {
 		c.Unk(sb, "validation-shape", sb.Pos(), "SendBatch no longer has the allOK flag and a validation loop over the batch parameter")
 	} else {
@@ -60,9 +84,15 @@ func runC12(c *kit.Ctx) {
 		for _, call := range kit.Calls(sb, kit.M("", "*client", "findClients"), hrpcRC+"QueueBatch", hrpcRC+"QueueRPC") {
 			good := false
 			for _, f := range kit.FactsAt(call.Block()) {
-				if f.Pol && isAllOKLoad(f.Cond) && loopHdr.Dominates(f.If.Block()) && f.If.Block() != loopHdr {
-					// the test is after the loop
-					if !kit.Reaches(f.If, loopHdr.Instrs[0]) {
+				if f.Pol && isAllOKLoad(f.Cond) {
+					// the test is after every validation loop
+					after := true
+					for _, h := range hdrs {
+						if !h.Dominates(f.If.Block()) || f.If.Block() == h || kit.Reaches(f.If, h.Instrs[0]) {
+							after = false
+						}
+					}
+					if after {
 						good = true
 					}
 				}
@@ -76,9 +106,22 @@ func runC12(c *kit.Ctx) {
 			rej  *ssa.BasicBlock
 		}
 		var preds []pred
-		inLoop := func(b *ssa.BasicBlock) bool {
-			return loopHdr.Dominates(b) && b != loopHdr && kit.PathFromBlock(b, kit.PathQuery{Target: func(x ssa.Instruction) bool { return x.Block() == loopHdr }}) != nil
+		// the header of the validation loop b belongs to (the innermost, i.e. last, one that contains it)
+		hdrOf := func(b *ssa.BasicBlock) *ssa.BasicBlock {
+			var found *ssa.BasicBlock
+			for _, h := range hdrs {
+				if h.Dominates(b) && b != h && kit.PathFromBlock(b, kit.PathQuery{Target: func(x ssa.Instruction) bool { return x.Block() == h }, SkipEdge: func(from, to *ssa.BasicBlock) bool {
+					// not by way of a later loop's exit... a later header is only reached after this loop ended
+					return false
+				}}) != nil {
+					if found == nil || found.Dominates(h) {
+						found = h
+					}
+				}
+			}
+			return found
 		}
+		inLoop := func(b *ssa.BasicBlock) bool { return hdrOf(b) != nil }
 		kit.Instrs(sb, func(in ssa.Instruction) {
 			iff, ok := in.(*ssa.If)
 			if !ok || !inLoop(iff.Block()) {
@@ -111,8 +154,9 @@ func runC12(c *kit.Ctx) {
 		seen := map[string]bool{}
 		for _, pr := range preds {
 			seen[pr.name] = true
+			myHdr := hdrOf(pr.iff.Block())
 			e := kit.PathFromBlock(pr.rej, kit.PathQuery{
-				Target: func(x ssa.Instruction) bool { return x.Block() == loopHdr },
+				Target: func(x ssa.Instruction) bool { return x.Block() == myHdr },
 				Stop: func(x ssa.Instruction) bool {
 					st, ok := x.(*ssa.Store)
 					if !ok || st.Addr != ssa.Value(allOK) {
@@ -130,8 +174,10 @@ func runC12(c *kit.Ctx) {
 			}
 		}
 		// no break: the block after the loop is entered only from the loop header
-		done := loopHdr.Succs[1]
-		c.Check(len(done.Preds) == 1, sb, "no-early-exit", firstPos(done), "the validation loop ends only when the range is exhausted", "the validation loop can be left early: later invalid entries are not seen")
+		for _, h := range hdrs {
+			done := h.Succs[1]
+			c.Check(len(done.Preds) == 1, sb, "no-early-exit", firstPos(done), "the validation loop ends only when the range is exhausted", "the validation loop can be left early: later invalid entries are not seen")
+		}
 	}
 
 	// what "batchable" means: the call implements Batchable AND did not ask to skip batching;
@@ -268,7 +314,49 @@ func runC12(c *kit.Ctx) {
 				}
 				l, ok := e.(*ssa.UnOp)
 				if !ok {
-					good = false
+					// the list lives in a register (no closure captures it): a web of phis, appends of
+					// waitForCompletion's first result, and truncations to length 0
+					wfcN := kit.M("", "*client", "waitForCompletion")
+					seen := map[ssa.Value]bool{}
+					var fromRetryList func(v ssa.Value, depth int) bool
+					fromRetryList = func(v ssa.Value, depth int) bool {
+						v = kit.Strip(v)
+						if seen[v] || depth > 12 {
+							return true
+						}
+						seen[v] = true
+						switch x := v.(type) {
+						case *ssa.Phi:
+							for _, pe := range x.Edges {
+								if !fromRetryList(pe, depth+1) {
+									return false
+								}
+							}
+							return true
+						case *ssa.Call:
+							if kit.CalleeName(x) != "builtin.append" || !fromRetryList(x.Call.Args[0], depth+1) {
+								return false
+							}
+							src, ok := kit.Root(x.Call.Args[1]).(*ssa.Extract)
+							if !ok || src.Index != 0 {
+								return false
+							}
+							cc, ok := src.Tuple.(*ssa.Call)
+							return ok && kit.CalleeName(cc) == wfcN
+						case *ssa.Slice:
+							k, ok := kit.ConstInt(x.High)
+							return ok && k == 0
+						case *ssa.Const:
+							return x.IsNil()
+						case *ssa.MakeSlice:
+							k, ok := kit.ConstInt(x.Len)
+							return ok && k == 0
+						}
+						return false
+					}
+					if !fromRetryList(e, 0) {
+						good = false
+					}
 					continue
 				}
 				a, ok := l.X.(*ssa.Alloc)
@@ -315,6 +403,8 @@ func runC12(c *kit.Ctx) {
 
 	// ---- R3 ---------------------------------------------------------------
 	c.StartRule("R3", "per-region order is preserved", 4)
+	responseIndicesAreUnique(c)
+	unsentCallsAreCleared(c)
 	multiBuildsItsRequestInFreshMemory(c)
 	if mtp := c.Anchor("region", "multi", "toProto"); mtp != nil {
 		cellblocksInActionOrder(c, mtp)
